@@ -18,10 +18,13 @@ Inductive ccase :=
 | CSigner (id : N) (item : string) (has_account : bool) (now expiring : Z) (sec : secret_state)
           (sign_crt sign_key sign_err set_err : bool)
           (obs_signs : list (list string * string)) (obs_sets : list string) (obs_err obs_reason : N)
-| CQueue (id : N) (ops : list op) (obs : list upd_obs) (final : list string).
+| CQueue (id : N) (ops : list op) (obs : list upd_obs) (final : list string)
+(* account life cycle: reconciliations with the real signer; per step the queue Add strings, the
+   queue Remove strings, BuildAcmeStorages() and HasAccount() *)
+| CAccount (id : N) (steps : list astep) (obs : list (list string * list string * list string * bool)).
 
 Definition case_id (c : ccase) : N :=
-  match c with CSigner id _ _ _ _ _ _ _ _ _ _ _ _ _ => id | CQueue id _ _ _ => id end.
+  match c with CSigner id _ _ _ _ _ _ _ _ _ _ _ _ _ => id | CQueue id _ _ _ => id | CAccount id _ _ => id end.
 
 Definition strs_eqb (a b : list string) : bool := if list_eq_dec string_dec a b then true else false.
 
@@ -47,6 +50,13 @@ Fixpoint list_eqb {A} (f : A -> A -> bool) (a b : list A) : bool :=
   | _, _ => false
   end.
 
+Fixpoint list_eqb2 {A B} (f : A -> B -> bool) (a : list A) (b : list B) : bool :=
+  match a, b with
+  | [], [] => true
+  | x :: s, y :: t => f x y && list_eqb2 f s t
+  | _, _ => false
+  end.
+
 Definition reason_code (r : reason) : N :=
   match r with RNone => 0 | RMissing => 1 | RExpiring => 2 | ROutdated => 3 end.
 
@@ -64,6 +74,12 @@ Definition case_ok (c : ccase) : bool :=
   | CQueue _ ops obs final =>
       let '(st, mobs) := run ops empty_storages in
       list_eqb upd_eqb mobs obs && perm_eqb (map render (items st)) final
+  | CAccount _ steps obs =>
+      list_eqb2 (fun (m : astep * step_trace * bool) (o : list string * list string * list string * bool) =>
+                  let '(_, tr, has) := m in let '(oa, od, ov, oh) := o in
+                  perm_eqb (map render (t_adds tr)) oa && perm_eqb (map render (t_dels tr)) od
+                  && perm_eqb (map render (t_after tr)) ov && Bool.eqb has oh)
+               (areconcile_all (empty_storages, new_signer) steps) obs
   end.
 
 Definition mismatches (cs : list ccase) : list N :=
